@@ -6,8 +6,10 @@
 
 #define U53 0x1p-53L
 
-enum { V_RANDOM, V_SIGNEDZERO, V_DYNRANGE, V_INTEGER, N_VFAM };
-static const char* vfam_name[] = {"random", "signedzero", "dynrange", "integer"};
+// V_SUBNORMAL: the first operand consists of subnormal numbers (exactly representable: multiples of 2^-1074), the second of
+// numbers around 2^1000, so that every exact product is an ordinary normal number (no overflow or underflow anywhere)
+enum { V_RANDOM, V_SIGNEDZERO, V_DYNRANGE, V_INTEGER, V_SUBNORMAL, N_VFAM };
+static const char* vfam_name[] = {"random", "signedzero", "dynrange", "integer", "subnormal*huge"};
 static double gen_val(rng_t* r, int fam) {
   switch (fam) {
     case V_SIGNEDZERO: {
@@ -302,6 +304,12 @@ static void fftvec_case(int ly, int addmul, int variant, uint64_t m, int fam, in
   fill(r, fam, a, 2 * m);
   fill(r, fam, b, 2 * m);
   fill(r, fam, rr, 2 * m);
+  if (fam == V_SUBNORMAL)
+    for (uint64_t i = 0; i < 2 * m; i++) {
+      a[i] = ldexp((double)rng_sbits(r, 20), -1074 + (int)(rng_u64(r) % 8));  // |a| < 2^-1046: subnormal
+      b[i] = ldexp(rng_unit(r) + 0.5, 1000) * ((rng_u64(r) & 1) ? 1 : -1);
+      rr[i] = ldexp(rng_unit(r) - 0.5, -40);                                     // the accumulator of addmul: the size of the products
+    }
   double* a0 = malloc(2 * m * 8);
   double* b0 = malloc(2 * m * 8);
   double* r0 = malloc(2 * m * 8);
